@@ -512,6 +512,29 @@ def r4_code_tables(R, unit: FUnit) -> None:
                     _vectorised_status(f, q)
                 R.check(bool(st_e) or m == '_evaluate', q, f'code-status:{cname}', f'{cname} ({code}) records status E before raising', f'{cname} ({code}) does not record SolutionStatus.ERROR',
                         where=f.fi.where)
+        # the run over several periods: the wrapper goes through the periods in order and raises at the first one whose code calls
+        # for it - having already stored every value the engine returned.  So the engine must have stopped at that period exactly
+        # when the wrapper is going to raise there: carried on, it has solved later periods that the pure-Python loop never reaches
+        if m == 'solve' and ei is not None:
+            fstop = _ftn_solve_stops(unit, ec, fc)
+            for cname in sorted(can):
+                if cname not in PY_EXCEPTION_FOR or cname in pre or cname not in ec.consts:
+                    continue
+                code = int(ec.consts[cname])
+                acting = {'numerical_error_raise': ['raise'], 'numerical_error_skip': ['skip'], 'pre_existing_non_finite_value': ['raise']}.get(cname, modes)
+                for md in acting:
+                    o_, _nn, any_ = outcome(code, md)
+                    if not any_:
+                        continue
+                    raises_ = bool(o_ - {'<normal>'}) and '<normal>' not in o_
+                    stops_ = fstop(code, int(eo[md]))
+                    if stops_ is None:
+                        raise Unknown(f'FORTRAN_TEMPLATE.solve: whether the period loop stops for error code {code} under errors={md!r} was not evaluated')
+                    R.check(raises_ == stops_, 'FORTRAN_TEMPLATE.solve', f'stop-agrees:{cname}:{md}',
+                            f"code {code} ({cname}) under errors='{md}': the engine {'stops' if stops_ else 'carries on'} and the wrapper {'raises' if raises_ else 'carries on'}",
+                            f"error code {code} ({cname}) under errors='{md}': the wrapper {'raises ' + '/'.join(sorted(o_ - {'<normal>'})) if raises_ else 'carries on'} at that period but the "
+                            f"Fortran period loop {'stops there' if stops_ else 'carries on and solves the later periods, whose values the wrapper stores before it raises'}: after the same "
+                            f"exception the two engines hold different values", where='template', decided=True)
         # a mode-specific code under another mode is not acted on as if it were expected
         if ei is not None:
             for cname, own in (('numerical_error_raise', 'raise'), ('numerical_error_skip', 'skip')):
@@ -526,6 +549,50 @@ def r4_code_tables(R, unit: FUnit) -> None:
                             got |= o_
                 R.check(got == {default_exc}, q, f'code-mode:{code}', f"code {code} is acted on only under errors == '{own}'",
                         f"code {code} under another errors= mode leads to {sorted(got)}, expected {default_exc}", where=f.fi.where)
+
+
+def _ftn_solve_stops(unit: FUnit, ec, fc):
+    """(error code, error-control value) -> does the period loop of the Fortran `solve` return at a period that ended with that
+    code (True / False; None if a guard could not be evaluated).  The guards of every `return` inside the loop are evaluated on
+    the constants of the two code modules."""
+    sv = unit.subs.get('solve')
+    if sv is None:
+        raise AnchorMissing('FORTRAN_TEMPLATE: subroutine solve')
+    scfg = CFG(sv.pyfunc)
+    loops = [n for n in scfg.nodes if n.kind == 'for']
+    rets = [n for n in scfg.nodes if isinstance(n.ast, ast.Return) and loops and loops[0].id in n.loops]
+    consts = {}
+    for mod_ in (ec, fc):
+        for k_, v_ in mod_.consts.items():
+            try:
+                consts[k_] = int(v_)
+            except (TypeError, ValueError):
+                pass
+
+    def stops(code: int, control: int):
+        env = dict(consts)
+        env.update({'error_code': code, 'error_control': control, 'converged': False, 'failure_control': consts.get('failure_control_ignore', -99)})
+        any_unknown = False
+        for r in rets:
+            ok_all = True
+            for (tid, lab) in guards(scfg, r.id):
+                tn = scfg.nodes[tid]
+                if tn.kind != 'test' or lab not in ('T', 'F'):
+                    continue
+                try:
+                    val = bool(eval(compile(ast.fix_missing_locations(ast.Expression(body=tn.ast)), '<guard>', 'eval'), {'__builtins__': {}}, dict(env)))
+                except Exception:
+                    any_unknown = True
+                    ok_all = False
+                    break
+                if val != (lab == 'T'):
+                    ok_all = False
+                    break
+            if ok_all:
+                return True
+        return None if any_unknown else False
+
+    return stops
 
 
 # ---------------------------------------------------------------------------
@@ -664,9 +731,9 @@ def r5_skeleton(R, unit: FUnit) -> None:
     for r in rets:
         conds.append(sorted(text(scfg.nodes[tid].ast) + ':' + lab for (tid, lab) in guards(scfg, r.id) if scfg.nodes[tid].kind == 'test'))
     want1 = sorted(['error_code == 0:T', 'converged:F', 'failure_control == failure_control_raise:T'])
-    want2 = sorted(['error_code == 0:F', 'error_control == error_control_raise:T'])
-    R.check(sorted(conds) == sorted([want1, want2]), 'FORTRAN_TEMPLATE.solve', f'early-stops:{conds}', "solve stops early exactly on (non-convergence and failures='raise') or (error and errors='raise')",
-            f'early returns of solve are guarded by {conds}', where='template')
+    R.check(want1 in [sorted(c_) for c_ in conds], 'FORTRAN_TEMPLATE.solve', f'early-stop-failure:{conds}', "solve stops early on non-convergence under failures='raise'",
+            f'early returns of solve are guarded by {conds}: none is (no error, not converged, failures = raise)', where='template')
+    # when it stops on an error code is decided against what the wrapper does with that code (C07.R4 `stop-agrees`)
 
 
 # ---------------------------------------------------------------------------
